@@ -16,6 +16,25 @@ NOTES = ('Every check executes the implementation in /repo/src (working tree) '
          'DESIGN.md.')
 
 CHECKS = [
+    {'id': 'C02', 'engine': 'explore', 'level': 'exploration',
+     'design_ref': 'DESIGN.md §4 C02',
+     'technique': 'bounded exhaustive enumeration of bad-item / look-alike '
+                  'placements x execution modes x child faults on the real '
+                  'Runner; verdict compared with ground truth from spec+trace',
+     'text': 'Every placement of <=1 (thorough: 2) bad items (failure, error, '
+             'unexpected success, failing subtests, two-event test, layer '
+             'setUp/tearDown raising, unimportable module) and <=1 look-alike '
+             '(skips, xfail, NotImplementedError tearDown, report-like noise '
+             'on stdout/stderr/fd 2) in 6 layer shapes is run sequentially, '
+             'with -j1/-j2/-j3, with resumed children and with -t/--only-level '
+             'filters; additionally every child of every child-bearing world '
+             'is made to fail to spawn, die before the report, or deliver a '
+             'report cut at each line (thorough: each byte). Runner.failed '
+             'must equal the ground truth in every case.',
+     'note': 'Children are in-process real Runners; death is modelled by '
+             'cutting the byte streams the parent reads (real signals are in '
+             'C07). One known finding (header spoofing via fd 2) is listed in '
+             'known_findings.json.'},
     {'id': 'C04', 'engine': 'explore', 'level': 'exploration',
      'design_ref': 'DESIGN.md §4 C04',
      'technique': 'bounded exhaustive enumeration of fault placements (test '
@@ -99,7 +118,7 @@ CHECKS = [
              'nodes use whatever id() order the interpreter gives.'},
 ]
 
-_PENDING = ['C02', 'C03', 'C06', 'C07', 'C08', 'C09',
+_PENDING = ['C03', 'C06', 'C07', 'C08', 'C09',
             'C10', 'C11', 'C12', 'C13', 'C14', 'C15', 'C17', 'C18',
             'C19']
 _DONE = {c['id'] for c in CHECKS}
